@@ -401,6 +401,21 @@ def _global_target(prj: Project, fi: FuncInfo, expr) -> str | None:
         return None
     head = ch.split(".")[0]
     if head in ("self",):
+        # self.X where X is a mutable object created in the class body and never rebound on the instance: one object for all instances
+        parts = ch.split(".")
+        if len(parts) == 2 and fi.cls is not None:
+            for c in fi.cls.mro():
+                v = c.class_attrs.get(parts[1])
+                if v is None:
+                    continue
+                mutable = isinstance(v, (ast.Dict, ast.List, ast.Set)) or \
+                    (isinstance(v, ast.Call) and (attr_chain(v.func) or "").split(".")[-1] in ("dict", "list", "set", "defaultdict", "deque", "OrderedDict", "Counter"))
+                rebound = any(isinstance(t, ast.Attribute) and isinstance(t.value, ast.Name) and t.value.id == "self" and t.attr == parts[1]
+                              for k in fi.cls.mro() for m_ in k.methods.values() for n_ in m_.walk() if isinstance(n_, (ast.Assign, ast.AnnAssign))
+                              for t in (n_.targets if isinstance(n_, ast.Assign) else [n_.target]))
+                if mutable and not rebound:
+                    return f"{c.name}.{parts[1]}"
+                break
         return None
     if head == "cls" and fi.cls is not None and fi.is_classmethod() and "." in ch:
         return f"{fi.cls.name}.{ch.split('.', 1)[1]}"
@@ -424,8 +439,42 @@ def _global_target(prj: Project, fi: FuncInfo, expr) -> str | None:
     return None
 
 
+def _mutable_default_params(fi: FuncInfo) -> dict:
+    """parameters whose default is a mutable object created once, when the function is defined: name -> default expression"""
+    out = {}
+    for p_ in fi.params():
+        d = fi.param_default(p_)
+        if d is None:
+            continue
+        if isinstance(d, (ast.Dict, ast.List, ast.Set)) or \
+                (isinstance(d, ast.Call) and (attr_chain(d.func) or "").split(".")[-1] in ("dict", "list", "set", "defaultdict", "deque", "OrderedDict", "Counter")):
+            out[p_] = d
+    return out
+
+
 def state_writes(prj: Project, fi: FuncInfo):
     out = []
+    # a mutable default argument is one object for the whole process: modifying it in place leaves state behind for every later
+    # call that omits the argument
+    mdp = _mutable_default_params(fi)
+    if mdp:
+        rebound = {t.id for n in fi.walk() if isinstance(n, ast.Assign) for t in n.targets if isinstance(t, ast.Name)}
+        for n in fi.walk():
+            tgt = None
+            if isinstance(n, (ast.Assign, ast.AugAssign)):
+                for t in (n.targets if isinstance(n, ast.Assign) else [n.target]):
+                    b = t.value if isinstance(t, ast.Subscript) else (t if isinstance(n, ast.AugAssign) else None)
+                    if isinstance(b, ast.Name) and b.id in mdp and b.id not in rebound:
+                        tgt = b.id
+            elif isinstance(n, ast.Call) and isinstance(n.func, ast.Attribute) and n.func.attr in MUTATORS and isinstance(n.func.value, ast.Name) \
+                    and n.func.value.id in mdp and n.func.value.id not in rebound:
+                tgt = n.func.value.id
+            elif isinstance(n, ast.Delete):
+                for t in n.targets:
+                    if isinstance(t, ast.Subscript) and isinstance(t.value, ast.Name) and t.value.id in mdp and t.value.id not in rebound:
+                        tgt = t.value.id
+            if tgt is not None:
+                out.append((f"{fi.module.name}.{fi.local}(<default of {tgt}>)", n))
     globs = set()
     for n in fi.walk():
         if isinstance(n, ast.Global):
@@ -551,6 +600,9 @@ def _initially_empty_dict(prj, fi: FuncInfo, target) -> bool:
     """the written object is a module-level name bound once, to an empty dictionary: what it holds comes from writes like this one"""
     if not isinstance(target, ast.Name):
         return False
+    d_ = _mutable_default_params(fi).get(target.id)
+    if d_ is not None:
+        return (isinstance(d_, ast.Dict) and not d_.keys) or (isinstance(d_, ast.Call) and attr_chain(d_.func) in ("dict", "OrderedDict") and not d_.args and not d_.keywords)
     mods = [fi.module]
     imp = fi.module.imports.get(target.id)
     if imp is not None:
@@ -582,6 +634,8 @@ def memo_verdict(prj, fi: FuncInfo, n):
         return "other", None
     key, val = subs[0].slice, n.value
     kd, vd = _key_captures(prj, fi, key), _input_deps(prj, fi, val)
+    if not kd:
+        return "other", None        # a fixed key: a flag or a setting kept for the rest of the process, not a memo of a computation
     if "*" in vd:
         return "memo", {"(something that could not be traced)"}
     missing = set()
@@ -596,6 +650,37 @@ def memo_verdict(prj, fi: FuncInfo, n):
             continue
         missing.add(d)
     return "memo", missing
+
+
+def rule_no_state_left(ctx, prj, rid: str, roots: list, what: str):
+    """shared with C18 / C19: nothing reachable from the given renderers modifies module-level or class-level state or a mutable
+    default argument in place (a memo whose key contains every input of the stored value excepted): rendering a second report in
+    the same process shows that report, not what the first rendering left behind"""
+    ctx.rule(rid, f"{what}: no function reachable from them modifies module-level or class-level state, or a mutable default argument, in "
+                  f"place (except a memo whose key contains every input of the stored value): a second rendering in the same process "
+                  f"is not affected by the first", floor=0)
+    roots = [r for r in roots if prj.maybe_func(r) is not None]
+    if not roots:
+        ctx.info(f"{rid}: none of the renderer entry points found; not judged")
+        return
+    fns = analysis_functions(prj, roots)
+    n = 0
+    for fi in fns:
+        for g, node in state_writes(prj, fi):
+            g0 = g.split(" (")[0]
+            if (fi.qual, g0) in ALLOWED_STATE_WRITES:
+                continue
+            kind, missing = memo_verdict(prj, fi, node)
+            if kind == "memo" and not missing:
+                ctx.ok(rid, fi.site(node), f"{fi.local}: a memo in {g0} whose key contains every input of the stored value")
+                continue
+            n += 1
+            extra = (f"; read as a memo, the stored value also depends on {sorted(missing)}, which the key does not capture") if kind == "memo" else ""
+            ctx.viol(rid, f"{fi.local}/writes/{g0}", fi.site(node),
+                     f"`{unparse(node)[:70]}` modifies process-wide state {g} while rendering: what one report leaves there is shown with (or instead of) "
+                     f"the next report rendered in the same process" + extra)
+    if not n:
+        ctx.ok(rid, prj.func(roots[0]).site(), f"{len(fns)} functions reachable from the renderers: no process-wide state written")
 
 
 def rule_R4(ctx, prj, fns):
